@@ -24,7 +24,11 @@ RULE = ('one case = one Configurator program (security policy absent / truthy ob
         'raise; class views whose permission comes from @view_defaults on the class or on a base class; statements shuffled, the '
         'policy statement last in a quarter of the cases; optionally a second commit with overrides and with views for more '
         'specific contexts, the application serving requests between the two commits; in 40 % of the cases a second, open '
-        'application built from the same statements is alive in the same process and serves every request first) x a random decision table x 8-12 requests through Router.__call__; observation = ordered log of '
+        'application built from the same statements is alive in the same process and serves every request first; the marker VALUE '
+        'as an equal non-identical str; permission=None passed explicitly to add_view / add_static_view; a policy object whose '
+        '`permits` attribute resolves to another callable until the application is built; request_method= predicates in several '
+        'spellings of one method set (tuple order, implied HEAD), overrides of a later commit re-spelling them; GET/POST/HEAD requests) '
+        'x a random decision table x 8-12 requests through Router.__call__; observation = ordered log of '
         'policy.permits calls (answers of several truthy/falsy kinds), decorator entries, view-body executions, the exception the '
         'main handler raised, and the final response or propagated exception. non-trivial = a policy is declared, at least one '
         'request ran a body right after a granted check and at least one request was refused; distinct by full case')
@@ -48,13 +52,15 @@ TRUSTED = [
     'for which primitive of Model/C05_base.v or parameter of the generated definition) and its assumptions A1-A4 (cache miss, no '
     'callbacks/subscribers, guards on unmodelled state, sys.exc_info) -- control flow is translated mechanically',
     'hand-written reference model coq/Model/C05.v for what is NOT regenerated: the deriver pipeline composition, add_view '
-    'registration, the exception-view directives, owrapped/decorated/csrf wrappers, MultiView (32 shape pins + 2 masked pins)',
+    'registration, the exception-view directives, owrapped/decorated/csrf wrappers, MultiView.match/__call_permissive__/'
+    '__permitted__/add/get_views (shape pins + 3 masked pins; MultiView.__call__ is regenerated)',
     'Model/C03.v (registration, MultiView, lookup) and Model/C18.v (sorter, default deriver declarations), imported unchanged',
 ]
 TECHNIQUE = ('Coq proof about a Gallina program whose control flow is TRANSLATED from the Python source on every run '
              '(_secured_view, secured_view, _authdebug_view, _find_views, _call_view, excview_tween, _error_handler, '
              'invoke_exception_view, Router.invoke_request, the view-execution part of Router.handle_request, '
-             'default_exceptionresponse_view): generated-equals-model theorems proved once (induction per loop, case split on the '
+             'default_exceptionresponse_view, MultiView.__call__; and, from C03\'s translation of pyramid/predicates.py, '
+             'RequestMethodPredicate.__init__): generated-equals-model theorems proved once (induction per loop, case split on the '
              'table atoms, scripts independent of the generated text), property theorems restated about the generated request path; '
              'trace invariants by induction over wrapper nesting / lookup loops / wrapper fuel; sortedness argument for commit phases; '
              'extracted regenerated program run differentially against the implementation; the Coq judge is run on the implementation log')
@@ -67,7 +73,10 @@ LEVEL_TEXT = ('Machine-checked theorems over the request path REGENERATED from t
               'default unless exception-only, marker = none, no policy = none); views are derived under the final phase-1/2 state of '
               'their commit whatever the statement order (also for sequences of commits); the @view_defaults permission of a view class is its '
               'explicit permission; secured_view is the outermost sorted deriver, '
-              'csrf_view directly under it; the judge clauses J1/J2 accept every model trace; secure=False is never used by the router.')
+              'csrf_view directly under it; the judge clauses J1/J2 accept every model trace; secure=False is never used by the router; '
+              'the regenerated MultiView.__call__ is the model\'s loop; the registration key (slot, phash, predicates, order) does not '
+              'depend on how request_method= is spelled (sorted closure under GET-implies-HEAD, also for the regenerated constructor), '
+              'PredicateList.make reads predicate arguments only through the constructors.')
 LEVEL_NOTE = ('Trusted: Coq kernel; the translator\'s primitive table and assumptions A1-A4; the hand-written model for the parts that '
               'are not regenerated (shape-pinned, validated by correspondence); Python harness; zope.interface as oracle. A semantics-'
               'preserving rewrite of a translated function raises no alarm; a semantic change makes a generated_is_model theorem fail and '
@@ -196,7 +205,7 @@ def _vd_perm(s):
 def _req_wire(w, r):
     o = w.oracle(r)
     return [r['method'], bool(r['xhr']), list(r['truth']), o['vname'], [0, o['res']], o['req_sro'], o['comb_sro'],
-            o['wrap_sro'], o['ctx_sro'], o['exc_sro'], r['method'] == 'GET' or bool(r.get('csrf'))]
+            o['wrap_sro'], o['ctx_sro'], o['exc_sro'], r['method'] in ('GET', 'HEAD') or bool(r.get('csrf'))]
 
 
 def _iface_ids(w):
@@ -376,7 +385,7 @@ def _has_late_slash(case):
         return False
     first = case['stmts'][:cut + 1]
     pol = any(s['k'] == 'policy' for s in first)
-    dp = any(s['k'] == 'defperm' and s['perm'] != 'NPR' for s in first)
+    dp = any(s['k'] == 'defperm' and s['perm'] not in ('NPR', 'NPRC') for s in first)
     return pol and dp and any(s['k'] == 'notfound' and s.get('append_slash') for s in case['stmts'][cut + 1:])
 
 
@@ -429,6 +438,10 @@ def kinds(case, obs):
     pol = [s for s in case['stmts'] if s['k'] == 'policy']
     dp = [s for s in case['stmts'] if s['k'] == 'defperm']
     ks.append('policy:' + ('none' if not pol else ('legacy-pair' if pol[0].get('legacy') else ('falsy' if pol[0]['falsy'] else 'truthy') + ('-ctor' if pol[0]['ctor'] else ''))))
+    if pol and pol[0].get('swap'):
+        ks.append('policy:permits-attribute-rebound-after-configuration')
+    if dp and dp[0]['perm'] == 'NPRC':
+        ks.append('stmt:marker-value-not-the-constant')
     if pol and not pol[0]['ctor']:
         idx = case['stmts'].index(pol[0])
         last = (case['cut'] if case.get('cut') is not None else len(case['stmts']) - 1)
@@ -440,7 +453,22 @@ def kinds(case, obs):
         ks.append('case:requests-served-between-the-commits')
     if case.get('sibling'):
         ks.append('case:second-application-in-the-process')
+    seen_keys = {}
+    for bi, b in enumerate(_batches(case)):
+        for s in b:
+            if s['k'] == 'view' and 'request_method' in s.get('preds', {}):
+                dk = G.disc_key(s)
+                prev = seen_keys.get(dk)
+                if prev is not None and prev[0] < bi and prev[1] != s['preds']['request_method']:
+                    ks.append('stmt:override-spells-request_method-differently')
+                seen_keys[dk] = (bi, s['preds']['request_method'])
+    if any(r['method'] == 'HEAD' for r in case['requests']):
+        ks.append('req:HEAD')
     for s in case['stmts']:
+        if s.get('xnone'):
+            ks.append('stmt:explicit-permission-None' + ('-static' if s['k'] == 'static' else ''))
+        if s.get('perm') == 'NPRC':
+            ks.append('stmt:marker-value-not-the-constant')
         if s['k'] in ('notfound', 'forbidden', 'excview', 'static'):
             ks.append('stmt:' + s['k'])
         if s['k'] == 'view':
